@@ -119,8 +119,8 @@ Definition fft (c : s2p_cfg) : flt -> flt -> Z * Z := frames_from_times (c_fps c
 (* start_frame, end_frame = frames_from_times(note.start_time, note.end_time) *)
 Definition main_frames (c : s2p_cfg) (n : snote) : Z * Z := fft c (n_start n) (n_end n).
 
-(* onset_start_frame, onset_end_frame *)
-Definition onset_frames (c : s2p_cfg) (n : snote) : Z * Z :=
+(* onset_start_frame, onset_end_frame as computed by the two onset modes, before the clamp *)
+Definition onset_frames_raw (c : s2p_cfg) (n : snote) : Z * Z :=
   let delay := (c_delay_ms c / f1000)%float in
   let ost := (n_start n + delay)%float in
   let oet := (n_end n + delay)%float in
@@ -129,6 +129,11 @@ Definition onset_frames (c : s2p_cfg) (n : snote) : Z * Z :=
     (Z.max 0 (w - c_window c), Z.min (rows_of c) (w + c_window c + 1))
   else
     fft c ost (fmin oet (ost + c_onset_len_ms c / f1000)%float).
+
+(* repo commit 05c4d11: a negative onset_delay_ms can move the onset before the start of the roll;
+   both bounds are clamped at 0 so that the slice assignments do not wrap around *)
+Definition onset_frames (c : s2p_cfg) (n : snote) : Z * Z :=
+  let r := onset_frames_raw c n in (Z.max 0 (fst r), Z.max 0 (snd r)).
 
 (* offset_start_frame, offset_end_frame *)
 Definition offset_frames (c : s2p_cfg) (n : snote) : Z * Z :=
